@@ -33,7 +33,7 @@ class State:
 
 
 class Event:
-    __slots__ = ('kind', 'fn', 'stack', 'block', 'span', 'lv', 'val', 'callee', 'args', 'state', 'extra', 'ret')
+    __slots__ = ('kind', 'fn', 'stack', 'block', 'span', 'lv', 'val', 'callee', 'args', 'state', 'extra', 'ret', 'own')
 
     def __init__(self, kind, fn, stack, block, span, state, lv=None, val=None, callee=None, args=None, extra=None):
         self.kind = kind
@@ -48,9 +48,33 @@ class Event:
         self.state = state
         self.extra = extra or {}
         self.ret = None
+        self.own = None
+
+    def is_own(self):
+        """the event belongs to the function under analysis: it happens in its own frame, or (fallback, decided by
+        Interp.mark_own) inside a private helper / closure it was extracted into and nothing of the same kind and callee
+        happens in the function's own frame"""
+        return self.own if self.own is not None else len(self.stack) == 1
+
+    def top_block(self):
+        """block of the entry function in which the event (or the inlined call containing it) sits"""
+        return self.block if len(self.stack) == 1 else self.stack[1][1]
 
     def __repr__(self):
         return 'Event(%s %s %s %s)' % (self.kind, self.fn, self.span, self.callee or show_lv(self.lv) if self.lv else '')
+
+
+# method spellings of the raw-pointer primitives are reported under the name of the free function they are defined as
+CALLEE_ALIAS = {
+    'core::ptr::const_ptr::<impl *const T>::read': 'core::ptr::read',
+    'core::ptr::mut_ptr::<impl *mut T>::read': 'core::ptr::read',
+    'core::ptr::non_null::NonNull::<T>::read': 'core::ptr::read',
+    'core::ptr::mut_ptr::<impl *mut T>::write': 'core::ptr::write',
+    'core::ptr::non_null::NonNull::<T>::write': 'core::ptr::write',
+    'core::ptr::mut_ptr::<impl *mut T>::drop_in_place': 'core::ptr::drop_in_place',
+    'core::ptr::non_null::NonNull::<T>::drop_in_place': 'core::ptr::drop_in_place',
+    'core::ptr::mut_ptr::<impl *mut T>::write_bytes': 'core::ptr::write_bytes',
+}
 
 
 class Result:
@@ -809,7 +833,50 @@ class Interp:
         out, ret = self.run_body(body, fid, st, args, entry=True)
         self.res.ret = ret
         self.res.ret_state = out
+        self.mark_own(self.res)
         return self.res
+
+    def is_private_helper(self, body_id):
+        b = self.bodies.get(body_id)
+        if b is None:
+            return False
+        if b['kind'] == 'closure':
+            return True
+        m = b.get('meta') or {}
+        return b['kind'] in ('fn', 'assoc_fn') and not m.get('pub') and not m.get('impl_trait')
+
+    def exclusive_helper(self, body_id, entry_id, _seen=None):
+        """a private function all of whose call sites sit in the entry function (or in helpers exclusive to it): code that was
+        merely extracted from the entry function"""
+        key = (body_id, entry_id)
+        memo = getattr(self, '_excl', None)
+        if memo is None:
+            memo = self._excl = {}
+        if key in memo:
+            return memo[key]
+        memo[key] = False
+        b = self.bodies.get(body_id)
+        okv = False
+        if b is not None and self.is_private_helper(body_id):
+            if b['kind'] == 'closure':
+                okv = True
+            else:
+                path = (b.get('meta') or {}).get('path') or body_id
+                callers = {cb['id'] for cb, bi, t in self.db.callers_of(path)} | {cb['id'] for cb, bi, t in self.db.callers_of(body_id)}
+                okv = bool(callers) and all(c == entry_id or c.startswith(entry_id + '::{closure') or (c != body_id and self.exclusive_helper(c, entry_id)) for c in callers)
+        memo[key] = okv
+        return okv
+
+    def mark_own(self, res):
+        present = {(e.kind, e.callee) for e in res.events if len(e.stack) == 1}
+        entry_id = res.events[0].stack[0][0] if res.events else None
+        for e in res.events:
+            if len(e.stack) == 1:
+                e.own = True
+            elif all(self.is_private_helper(f[0]) for f in e.stack[1:]) and ((e.kind, e.callee) not in present or all(self.exclusive_helper(f[0], entry_id) for f in e.stack[1:])):
+                e.own = True
+            else:
+                e.own = False
 
     def run_body(self, body, fid, st, args, entry=False, keep_frame=False):
         prev = self._fid
@@ -1091,7 +1158,7 @@ class Interp:
         res = c.get('resolved')
         if res and res.get('path'):
             target = res['path']
-        ev = self.event('call', st, fid, bi, span, callee=target, args=args, extra={'callee': c, 'exp': t.get('exp'), 'trait_path': path})
+        ev = self.event('call', st, fid, bi, span, callee=CALLEE_ALIAS.get(target, target), args=args, extra={'callee': c, 'exp': t.get('exp'), 'trait_path': path, 'raw_callee': target})
         r = self.call_target(st, fid, bi, t, c, path, target, args)
         ev.ret = r
         return r
